@@ -11,7 +11,11 @@ def cases(tier):
                 if mode == 2 and sel != 0: continue
                 ivs = ((6, 3200) if mode != 1 else (6, 40, 3200)) if tier == 'quick' else (6, 7, 24, 40, 799, 800, 3199, 3200)
                 for iv in ivs:
-                    cs.append({'CFG': cfg, 'SEL': sel, 'MODE': mode, 'INTERVAL': iv})
+                    c = {'CFG': cfg, 'SEL': sel, 'MODE': mode, 'INTERVAL': iv}
+                    # the pull back divides the time since the anchor by the interval and the oracle multiplies back: SAT does not
+                    # decide that (900 s timeout), cvc5 with bit-vectors solved as integers does in seconds
+                    if mode == 1 and cfg in (1, 3, 4): c['_backend'] = 'cvc5int'
+                    cs.append(c)
     return cs
 
 PROPERTY = Property(
